@@ -35,7 +35,7 @@ ASSUMPTIONS = [
     'threads: sys.setswitchinterval(1e-6) plus seeded sleep(0) injection; held on the interleavings observed, not all',
 ]
 SHARDS = {'quick': 4, 'thorough': 16}
-TIMEOUT = {'quick': 600, 'thorough': 3000}
+TIMEOUT = {'quick': 900, 'thorough': 3600}
 ANCHORS = [
     ('pjrpc/server/dispatcher.py', 'Dispatcher.dispatch'), ('pjrpc/server/dispatcher.py', 'Dispatcher._handle_rpc_method'),
     ('pjrpc/server/dispatcher.py', 'Method.bind'), ('pjrpc/server/dispatcher.py', 'ViewMethod.bind'),
